@@ -55,8 +55,9 @@ def judge(ck, c, b, obs, index):
         return "violation"
     if obs["overrun"]:
         if b["nstay"] > 0:
-            ck.violation("rejected proposal is retried inside the step (RejectRetry) instead of being recorded (RejectStay)",
-                         {"class": "HamiltonianChain"}, site="HamiltonianChain.take_step:retry-until-accept")
+            if ck.pid == "C01":      # a C01 matter (known finding F1); for other properties both semantics conform
+                ck.violation("rejected proposal is retried inside the step (RejectRetry) instead of being recorded (RejectStay)",
+                             {"class": "HamiltonianChain"}, site="HamiltonianChain.take_step:retry-until-accept")
             return "retry"
         ck.violation("acceptance decision: the code rejected / kept drawing where the specification commits",
                      {**ident, "code_theta": obs["theta"]}, site=site)
